@@ -117,11 +117,11 @@ PROPS["C08"] = {
 PROPS["C09"] = {
     "title": "Pod creation is rate limited by slow start and syncs are spaced",
     "level": "exploration",
-    "level_text": "Stateful property test on the virtual clock: reconcile requests arrive at generated instants (sub-second to minutes apart, so the one-second truncation of stored timestamps is exercised); after every active sync the number of pod Creates is compared with min(maxParallelPodCreation, (1+floor(t/interval))*increase) computed in big integers from the state read, update-deletions with maxUnavailable, and two write-issuing syncs of one replica set must be >= reconcileFrequency-1s apart when the first status write succeeded.",
+    "level_text": "Stateful property test on the virtual clock: reconcile requests arrive at generated instants (sub-second to minutes apart, so the one-second truncation of stored timestamps is exercised); after every active sync the number of pod Creates is compared with min(maxParallelPodCreation, (1+floor(t/interval))*increase) computed in big integers from the state read, update-deletions with maxUnavailable, and two write-issuing syncs of one replica set must be >= reconcileFrequency-1s apart when the first status write succeeded. Function-level: sync pairs at generated second fractions and gaps around reconcileFrequency (TestC09Spacing), and the ramp itself at exact instants k*interval-1ns/0/+1ns through a build-tagged shim, compared for equality with the reference formula (TestC09Ramp).",
     "level_note": SM_NOTE + " t is measured from the Active condition's stored (second-truncated) transition time, one extra second of slack is granted.",
     "technique": "stateful property-based testing (rapid) on a virtual clock with a reference ramp formula",
-    "quick": {"jobs": [rapid_job("sm", "^TestC09SM$", 750, shards=4), rapid_job("spacing", "^TestC09Spacing$", 2000)]},
-    "thorough": {"jobs": [rapid_job("sm", "^TestC09SM$", 4000, shards=14, timeout="50m"), rapid_job("spacing", "^TestC09Spacing$", 20000, shards=2)]},
+    "quick": {"jobs": [rapid_job("sm", "^TestC09SM$", 750, shards=4), rapid_job("spacing", "^TestC09Spacing$", 2000), rapid_job("ramp", "^TestC09Ramp$", 30000)]},
+    "thorough": {"jobs": [rapid_job("sm", "^TestC09SM$", 4000, shards=14, timeout="50m"), rapid_job("spacing", "^TestC09Spacing$", 20000, shards=2), rapid_job("ramp", "^TestC09Ramp$", 500000)]},
 }
 
 PROPS["C12"] = {
@@ -186,7 +186,8 @@ PROPS["C10"] = {
     "level_note": "Trusted: the resource-resolution order as stated in the property; ManageDeployment with N=1, maxUnavailable=100% as the 'would be replaced' observer (cross-checkable with the CompareCurrentPodWithNewPodForVerif shim).",
     "technique": "property-based testing (rapid): reference-model oracle on the created object + round-trip/metamorphic relations through the controller's own comparison",
     "quick": {"jobs": [rapid_job("created-pod", "^TestC10CreatedPod$", 2500, shards=4)]},
-    "thorough": {"jobs": [rapid_job("created-pod", "^TestC10CreatedPod$", 25000, shards=16, timeout="50m")]},
+    "thorough": {"jobs": [rapid_job("created-pod", "^TestC10CreatedPod$", 25000, shards=12, timeout="50m"), fuzz_job("fuzz-annotation", "^FuzzC10Annotation$", fuzztime="90s", workers=4)]},
+    "log_violations": True,
 }
 
 PROPS["C18"] = {
